@@ -233,4 +233,358 @@ theorem inverse_counterexample :
     (⟨true, 64, 0⟩ : Fmt).minV ≤ 2 ^ 53 + 1 ∧ (2 ^ 53 + 1 : Int) ≤ (⟨true, 64, 0⟩ : Fmt).maxV ∧
     ¬ Exact53 (2 ^ 53 + 1) := by decide +kernel
 
+/-- integer value of a dyadic bound with non-negative exponent -/
+def Dy.intVal (b : Dy) : Int := b.m * 2 ^ b.e.toNat
+
+theorem num_den_int (b : Dy) (hb : 0 ≤ b.e) : num b.m b.e = b.intVal ∧ den b.e = 1 := by
+  unfold num den Dy.intVal; simp [hb]
+
+theorem le_int_iff (d b : Dy) (hb : 0 ≤ b.e) : Dy.le d b ↔ num d.m d.e ≤ b.intVal * den d.e := by
+  have := cross_iff_le d b 0
+  simp only [Int.add_zero] at this
+  rw [(num_den_int b hb).1, (num_den_int b hb).2, Int.mul_one] at this
+  exact this.symm
+
+theorem int_le_iff (d b : Dy) (hb : 0 ≤ b.e) : Dy.le b d ↔ b.intVal * den d.e ≤ num d.m d.e := by
+  have := cross_iff_le b d 0
+  simp only [Int.add_zero] at this
+  rw [(num_den_int b hb).1, (num_den_int b hb).2, Int.mul_one] at this
+  exact this.symm
+
+theorem int_le_int (a b : Dy) (ha : 0 ≤ a.e) (hb : 0 ≤ b.e) : Dy.le a b ↔ a.intVal ≤ b.intVal := by
+  rw [le_int_iff a b hb, (num_den_int a ha).1, (num_den_int a ha).2, Int.mul_one]
+
+theorem trunc_int (b : Dy) (hb : 0 ≤ b.e) : truncScaled b.m b.e = b.intVal := by
+  unfold truncScaled; rw [(num_den_int b hb).1, (num_den_int b hb).2]; simp
+
+/-- clipping between integer bounds then truncating = truncating then clamping -/
+theorem clip_trunc (d lo hi : Dy) (hlo : 0 ≤ lo.e) (hhi : 0 ≤ hi.e)
+    (hL0 : lo.intVal ≤ 0) (hH0 : 0 ≤ hi.intVal) :
+    truncScaled (minD (maxD d lo) hi).m (minD (maxD d lo) hi).e
+      = max (min hi.intVal (truncScaled d.m d.e)) lo.intVal := by
+  have hd := den_pos d.e
+  have ht := tdiv_isTrunc (num d.m d.e) (den d.e) hd
+  obtain ⟨a, b⟩ := ht
+  have hlh : Dy.le lo hi := (int_le_int lo hi hlo hhi).mpr (by omega)
+  unfold maxD
+  by_cases h1 : Dy.le d lo
+  · simp only [h1, if_true]
+    unfold minD; simp only [hlh, if_true]
+    rw [trunc_int lo hlo]
+    rw [le_int_iff d lo hlo] at h1
+    have : truncScaled d.m d.e ≤ lo.intVal := by
+      unfold truncScaled
+      rcases lt_or_ge (num d.m d.e) 0 with hn | hn
+      · obtain ⟨x1, x2⟩ := b hn
+        have : (num d.m d.e).tdiv (den d.e) - 1 < lo.intVal := by nlinarith
+        omega
+      · obtain ⟨x1, x2⟩ := a hn
+        nlinarith
+    omega
+  · simp only [h1, if_false]
+    unfold minD
+    rw [le_int_iff d lo hlo, not_le] at h1
+    have hge : lo.intVal ≤ truncScaled d.m d.e := by
+      unfold truncScaled
+      rcases lt_or_ge (num d.m d.e) 0 with hn | hn
+      · obtain ⟨x1, x2⟩ := b hn
+        have : lo.intVal < (num d.m d.e).tdiv (den d.e) := by nlinarith
+        omega
+      · obtain ⟨x1, x2⟩ := a hn
+        have : 0 < (num d.m d.e).tdiv (den d.e) + 1 := by nlinarith
+        omega
+    by_cases h2 : Dy.le d hi
+    · simp only [h2, if_true]
+      rw [le_int_iff d hi hhi] at h2
+      have : truncScaled d.m d.e ≤ hi.intVal := by
+        unfold truncScaled
+        rcases lt_or_ge (num d.m d.e) 0 with hn | hn
+        · obtain ⟨x1, x2⟩ := b hn
+          have : (num d.m d.e).tdiv (den d.e) - 1 < 0 := by nlinarith
+          omega
+        · obtain ⟨x1, x2⟩ := a hn
+          nlinarith
+      omega
+    · simp only [h2, if_false]
+      rw [trunc_int hi hhi]
+      rw [le_int_iff d hi hhi, not_le] at h2
+      have : hi.intVal ≤ truncScaled d.m d.e := by
+        unfold truncScaled
+        have hn : 0 ≤ num d.m d.e := by nlinarith
+        obtain ⟨x1, x2⟩ := a hn
+        have : hi.intVal < (num d.m d.e).tdiv (den d.e) + 1 := by nlinarith
+        omega
+      omega
+
+
+/-- the clip bounds of the array converter as doubles: exact at the lower end; at the upper end
+exact for 8/16/32 bits and rounded UP by one for 64 bits -/
+theorem np_bounds (fmt : Fmt) (hb : npBits.contains fmt.bits = true) :
+    0 ≤ (round53 fmt.minV).e ∧ 0 ≤ (round53 fmt.maxV).e ∧ (round53 fmt.minV).intVal = fmt.minV ∧
+    (if fmt.bits = 64 then (round53 fmt.maxV).intVal = fmt.maxV + 1
+      else (round53 fmt.maxV).intVal = fmt.maxV) := by
+  obtain ⟨s, b, f⟩ := fmt
+  have hb' : b = 8 ∨ b = 16 ∨ b = 32 ∨ b = 64 := by
+    have : npBits = [8, 16, 32, 64] := by decide
+    rw [this] at hb; simpa using hb
+  have e1 : Fmt.maxV ⟨s, b, f⟩ = Fmt.maxV ⟨s, b, 0⟩ := rfl
+  have e2 : Fmt.minV ⟨s, b, f⟩ = Fmt.minV ⟨s, b, 0⟩ := rfl
+  rw [e1, e2]
+  show _ ∧ _ ∧ _ ∧ (if b = 64 then _ else _)
+  rcases hb' with rfl | rfl | rfl | rfl <;> cases s <;> decide +kernel
+
+/-- a double: 53-bit significand -/
+def IsDouble (v : Dy) : Prop := v.m.natAbs ≤ 2 ^ 53
+instance (v : Dy) : Decidable (IsDouble v) := by unfold IsDouble; infer_instance
+
+theorem isTrunc_zero {m D : Int} (h : |m| < D) : IsTrunc 0 m D := by
+  have := abs_lt.mp h
+  constructor <;> intro _ <;> constructor <;> omega
+
+theorem rne_abs_le (m : Int) (s : Nat) : |rne m s| ≤ |m| + 1 := by
+  unfold rne
+  simp only
+  have hD : (0 : Int) < 2 ^ s := by positivity
+  generalize (2 : Int) ^ s = D at *
+  have h1 : m / D * D ≤ m := Int.ediv_mul_le m (by omega)
+  have h2 : m < (m / D + 1) * D := Int.lt_ediv_add_one_mul_self m hD
+  have hq : |m / D| ≤ |m| := by
+    rw [abs_le]
+    rcases lt_or_ge m 0 with hm | hm
+    · rw [abs_of_neg hm]; constructor <;> nlinarith
+    · rw [abs_of_nonneg hm]; constructor <;> nlinarith
+  have hq1 : |m / D + 1| ≤ |m| + 1 := by
+    have := abs_add_le (m / D) 1
+    simp at this; omega
+  split
+  · omega
+  · split
+    · exact hq1
+    · split
+      · omega
+      · exact hq1
+
+theorem pow1074 : (2 : Int) ^ 53 + 1 < 2 ^ 1074 := by
+  have : (2 : Int) ^ 1074 = 2 ^ 54 * 2 ^ 1020 := by rw [← pow_add]
+  have h : (1 : Int) ≤ 2 ^ 1020 := one_le_pow₀ (by norm_num)
+  rw [this]
+  generalize (2 : Int) ^ 1020 = X at h
+  norm_num
+  omega
+
+/-- the scaled double used by the array path truncates to the same integer as the exact
+scaled value (underflow rounds to something still below 1 in magnitude) -/
+theorem toDouble_trunc (m k : Int) (hfin : magLt m k 1024 = true) (hm : m.natAbs ≤ 2 ^ 53) :
+    ∃ d, toDouble m k = .fin d ∧ truncScaled d.m d.e = truncScaled m k := by
+  unfold toDouble
+  by_cases h0 : m = 0
+  · refine ⟨⟨0, 0⟩, by simp [h0], ?_⟩
+    subst h0; unfold truncScaled num; simp
+  · simp only [h0, if_false, hfin, Bool.not_true]
+    by_cases hk : -1074 ≤ k
+    · exact ⟨⟨m, k⟩, by simp [hk], rfl⟩
+    · refine ⟨⟨rne m (-1074 - k).toNat, -1074⟩, by simp [hk], ?_⟩
+      have habs : |m| ≤ 2 ^ 53 := by
+        rw [Int.abs_eq_natAbs]; exact_mod_cast hm
+      have hr := rne_abs_le m (-1074 - k).toNat
+      have e1 : truncScaled (rne m (-1074 - k).toNat) (-1074) = 0 := by
+        unfold truncScaled
+        refine isTrunc_unique (den_pos _) (tdiv_isTrunc _ _ (den_pos _)) (isTrunc_zero ?_)
+        have : num (rne m (-1074 - k).toNat) (-1074) = rne m (-1074 - k).toNat := by unfold num; simp
+        rw [this]
+        have : den (-1074) = 2 ^ 1074 := by unfold den; simp
+        rw [this]
+        have := pow1074; omega
+      have e2 : truncScaled m k = 0 := by
+        unfold truncScaled
+        refine isTrunc_unique (den_pos _) (tdiv_isTrunc _ _ (den_pos _)) (isTrunc_zero ?_)
+        have hk' : ¬ (0 ≤ k) := by omega
+        have : num m k = m := by unfold num; simp [hk']
+        rw [this]
+        have : den k = 2 ^ (-k).toNat := by unfold den; simp [hk']
+        rw [this]
+        have h1 : (2 : Int) ^ 1074 ≤ 2 ^ (-k).toNat := pow_le_pow_right₀ (by norm_num) (by omega)
+        have := pow1074; omega
+      rw [e1, e2]
+
+
+/-- the part of `NumpyFloatToFixConverter.__call__` after the scaling -/
+def npBody (rep : Bool) (fmt : Fmt) (x : FloatR) : Cast :=
+  let hi := round53 fmt.maxV
+  let saturated := rep && x.ge hi
+  let c := clipF x (round53 fmt.minV) hi
+  let c := if saturated then ⟨0, 0⟩ else c
+  let t := truncScaled c.m c.e
+  let cast := if fmt.minV ≤ t ∧ t ≤ fmt.maxV then Cast.val t else Cast.unspecified
+  if saturated then .val fmt.maxV else cast
+
+theorem npBody_pinned (fmt : Fmt) (d : Dy) (hb : npBits.contains fmt.bits = true)
+    (hle : fmt.bits = 64 → truncScaled d.m d.e ≤ fmt.maxV) :
+    npBody false fmt (.fin d) = .val (clamp fmt (truncScaled d.m d.e)) := by
+  obtain ⟨b1, b2, b3, b4⟩ := np_bounds fmt hb
+  have hM := maxV_nonneg fmt
+  have hm := minV_nonpos fmt
+  unfold npBody
+  simp only [Bool.false_and, Bool.false_eq_true, if_false, clipF]
+  rw [clip_trunc d _ _ b1 b2 (by omega) (by split at b4 <;> omega), b3]
+  unfold clamp
+  generalize truncScaled d.m d.e = t at *
+  split at b4
+  · rename_i h64
+    have := hle h64
+    rw [b4]
+    have e : max (min (fmt.maxV + 1) t) fmt.minV = max (min fmt.maxV t) fmt.minV := by omega
+    rw [e, if_pos (by omega)]
+  · rw [b4, if_pos (by omega)]
+
+theorem npBody_repaired (fmt : Fmt) (d : Dy) (hb : npBits.contains fmt.bits = true) :
+    npBody true fmt (.fin d) = .val (clamp fmt (truncScaled d.m d.e)) := by
+  obtain ⟨b1, b2, b3, b4⟩ := np_bounds fmt hb
+  have hM := maxV_nonneg fmt
+  have hm := minV_nonpos fmt
+  have hH : fmt.maxV ≤ (round53 fmt.maxV).intVal ∧ (round53 fmt.maxV).intVal ≤ fmt.maxV + 1 := by
+    split at b4 <;> omega
+  have hd := den_pos d.e
+  obtain ⟨a, b⟩ := tdiv_isTrunc (num d.m d.e) (den d.e) hd
+  unfold npBody
+  simp only [Bool.true_and, FloatR.ge, clipF]
+  by_cases hs : Dy.le (round53 fmt.maxV) d
+  · simp only [hs, decide_true, if_true]
+    rw [int_le_iff d _ b2] at hs
+    have hn : 0 ≤ num d.m d.e := by nlinarith
+    obtain ⟨x1, x2⟩ := a hn
+    have : (round53 fmt.maxV).intVal < truncScaled d.m d.e + 1 := by unfold truncScaled; nlinarith
+    unfold clamp
+    have e : max (min fmt.maxV (truncScaled d.m d.e)) fmt.minV = fmt.maxV := by omega
+    rw [e]
+  · simp only [hs, decide_false, Bool.false_eq_true, if_false]
+    rw [clip_trunc d _ _ b1 b2 (by omega) (by omega), b3]
+    rw [int_le_iff d _ b2, not_le] at hs
+    have hlt : truncScaled d.m d.e < (round53 fmt.maxV).intVal := by
+      unfold truncScaled
+      rcases lt_or_ge (num d.m d.e) 0 with hn | hn
+      · obtain ⟨x1, x2⟩ := b hn
+        have : (num d.m d.e).tdiv (den d.e) - 1 < 0 := by nlinarith
+        have hpos : 0 < (round53 fmt.maxV).intVal := by
+          by_contra hc
+          have : (round53 fmt.maxV).intVal * den d.e ≤ 0 := by nlinarith
+          have h0 : fmt.maxV = 0 := by omega
+          -- maxV = 0 is impossible for the widths in npBits
+          obtain ⟨s, bb, f⟩ := fmt
+          have hb' : bb = 8 ∨ bb = 16 ∨ bb = 32 ∨ bb = 64 := by
+            have : npBits = [8, 16, 32, 64] := by decide
+            rw [this] at hb; simpa using hb
+          rcases hb' with rfl | rfl | rfl | rfl <;> cases s <;> simp [Fmt.maxV] at h0
+        omega
+      · obtain ⟨x1, x2⟩ := a hn
+        nlinarith
+    unfold clamp
+    generalize truncScaled d.m d.e = t at *
+    have e : max (min (round53 fmt.maxV).intVal t) fmt.minV = max (min fmt.maxV t) fmt.minV := by omega
+    rw [e, if_pos (by omega)]
+
+
+theorem npBody_pinned_overflow (fmt : Fmt) (d : Dy) (hb : npBits.contains fmt.bits = true)
+    (h64 : fmt.bits = 64) (hgt : fmt.maxV < truncScaled d.m d.e) :
+    npBody false fmt (.fin d) = .unspecified := by
+  obtain ⟨b1, b2, b3, b4⟩ := np_bounds fmt hb
+  have hM := maxV_nonneg fmt
+  have hm := minV_nonpos fmt
+  rw [if_pos h64] at b4
+  unfold npBody
+  simp only [Bool.false_and, Bool.false_eq_true, if_false, clipF]
+  rw [clip_trunc d _ _ b1 b2 (by omega) (by omega), b3, b4]
+  generalize truncScaled d.m d.e = t at *
+  have e : max (min (fmt.maxV + 1) t) fmt.minV = fmt.maxV + 1 := by omega
+  rw [e, if_neg (by omega)]
+
+/-- hypotheses of the array theorems: an accepted width, `2.0**n_frac` exists and is not 0.0,
+the scaled value is finite, the input is a double -/
+structure ArrayDomain (fmt : Fmt) (v : Dy) : Prop where
+  width : npBits.contains fmt.bits = true
+  fracHi : fmt.frac < 1024
+  fracLo : -1074 ≤ fmt.frac
+  finite : FiniteScaled fmt v
+  double : IsDouble v
+
+theorem ArrayDomain.fmtOk {fmt : Fmt} {v : Dy} (h : ArrayDomain fmt v) : fmt.Ok := by
+  refine ⟨?_, h.fracHi⟩
+  intro ⟨_, h0⟩
+  have := h.width
+  rw [h0] at this
+  revert this; decide
+
+theorem np_unfold (rep : Bool) (fmt : Fmt) (v : Dy) (h : ArrayDomain fmt v) :
+    npFloatToFixG rep fmt v = .ok (npBody rep fmt (toDouble v.m (v.e + fmt.frac))) := by
+  have a : ¬ (1024 ≤ fmt.frac) := by have := h.fracHi; omega
+  have b : ¬ (fmt.frac < -1074) := by have := h.fracLo; omega
+  unfold npFloatToFixG npBody pow2f
+  simp only [h.width, Bool.not_true, Bool.false_eq_true, if_false, a, b, bind, Except.bind, pure,
+    Except.pure, mulScale]
+  rfl
+
+/-- **Array = scalar (8, 16 and 32 bits).** The NumPy converter (scale, clip in floating point,
+cast) returns, for every element, exactly what `float_to_fp` returns. -/
+theorem array_eq_scalar (fmt : Fmt) (v : Dy) (h : ArrayDomain fmt v) (hb : fmt.bits ≠ 64) :
+    npFloatToFix fmt v = (floatToFp fmt v).map Cast.val := by
+  obtain ⟨d, hd, ht⟩ := toDouble_trunc v.m (v.e + fmt.frac) h.finite h.double
+  rw [fp_total fmt v h.fmtOk h.finite]
+  unfold npFloatToFix
+  rw [np_unfold false fmt v h, hd, npBody_pinned fmt d h.width (fun h64 => absurd h64 hb), ht]
+  rfl
+
+/-- **Array = scalar, 64 bits, pinned code:** holds for every element whose truncated scaled
+value does not exceed the maximum, i.e. strictly below the rounded clip bound `float(2^63-1) = 2^63`. -/
+theorem array64_eq_scalar_below_bound (fmt : Fmt) (v : Dy) (h : ArrayDomain fmt v)
+    (hlt : truncScaled v.m (v.e + fmt.frac) ≤ fmt.maxV) :
+    npFloatToFix fmt v = (floatToFp fmt v).map Cast.val := by
+  obtain ⟨d, hd, ht⟩ := toDouble_trunc v.m (v.e + fmt.frac) h.finite h.double
+  rw [fp_total fmt v h.fmtOk h.finite]
+  unfold npFloatToFix
+  rw [np_unfold false fmt v h, hd, npBody_pinned fmt d h.width (fun _ => by rw [ht]; exact hlt), ht]
+  rfl
+
+/-- **The 64-bit saturation defect of the pinned code (F9):** every element whose scaled value
+reaches `max + 1` is clipped to `float(max) = max + 1` and then cast out of range (observed
+on x86-64: `-2^63` for int64, `0` for uint64), while `float_to_fp` saturates at `max`. -/
+theorem array64_defect_all (fmt : Fmt) (v : Dy) (h : ArrayDomain fmt v) (h64 : fmt.bits = 64)
+    (hgt : fmt.maxV < truncScaled v.m (v.e + fmt.frac)) :
+    npFloatToFix fmt v = .ok .unspecified ∧ floatToFp fmt v = .ok fmt.maxV := by
+  obtain ⟨d, hd, ht⟩ := toDouble_trunc v.m (v.e + fmt.frac) h.finite h.double
+  constructor
+  · unfold npFloatToFix
+    rw [np_unfold false fmt v h, hd, npBody_pinned_overflow fmt d h.width h64 (by rw [ht]; exact hgt)]
+  · rw [fp_total fmt v h.fmtOk h.finite]
+    have hm := minV_nonpos fmt
+    have hM := maxV_nonneg fmt
+    unfold clamp
+    have e : max (min fmt.maxV (truncScaled v.m (v.e + fmt.frac))) fmt.minV = fmt.maxV := by omega
+    rw [e]
+
+/-- concrete instance: 1e30-like value `2^100` in the signed and unsigned 64-bit integer formats -/
+theorem array64_defect :
+    npFloatToFix ⟨true, 64, 0⟩ ⟨1, 100⟩ = .ok .unspecified ∧
+    floatToFp ⟨true, 64, 0⟩ ⟨1, 100⟩ = .ok (2 ^ 63 - 1) ∧
+    npFloatToFix ⟨false, 64, 0⟩ ⟨1, 100⟩ = .ok .unspecified ∧
+    floatToFp ⟨false, 64, 0⟩ ⟨1, 100⟩ = .ok (2 ^ 64 - 1) := by decide +kernel
+
+/-- **Array = scalar for every supported width (8, 16, 32, 64) for the repaired code**
+(fixes/c16-saturate-64bit.diff). -/
+theorem array_eq_scalar_repaired (fmt : Fmt) (v : Dy) (h : ArrayDomain fmt v) :
+    npFloatToFixRepaired fmt v = (floatToFp fmt v).map Cast.val := by
+  obtain ⟨d, hd, ht⟩ := toDouble_trunc v.m (v.e + fmt.frac) h.finite h.double
+  rw [fp_total fmt v h.fmtOk h.finite]
+  unfold npFloatToFixRepaired
+  rw [np_unfold true fmt v h, hd, npBody_repaired fmt d h.width, ht]
+  rfl
+
+instance (fmt : Fmt) (v : Dy) : Decidable (FiniteScaled fmt v) := by unfold FiniteScaled; infer_instance
+example : ArrayDomain ⟨true, 16, 5⟩ ⟨-12345, -7⟩ ∧ (⟨true, 16, 5⟩ : Fmt).bits ≠ 64 :=
+  ⟨⟨by decide, by decide, by decide, by decide +kernel, by decide⟩, by decide⟩
+example : ArrayDomain ⟨true, 64, 0⟩ ⟨1, 100⟩ ∧
+    (⟨true, 64, 0⟩ : Fmt).maxV < truncScaled 1 (100 + 0) :=
+  ⟨⟨by decide, by decide, by decide, by decide +kernel, by decide⟩, by decide +kernel⟩
+
+end Rig.C16
+
 end Rig.C16
